@@ -355,6 +355,7 @@ type Portfolio struct {
 	SoftCVC  int
 	lastSat  *Solver
 	Fallback int
+	z3Timeouts int
 }
 
 func NewPortfolio(softZ3ms, softCVCms int, cross bool) (*Portfolio, error) {
@@ -385,24 +386,33 @@ func (p *Portfolio) Check(q []*Term) string {
 		}
 		return r
 	}
-	r := p.z3.Check(q)
+	first, second := p.z3, p.cvc
+	if p.z3Timeouts >= 2 {
+		// z3 keeps timing out on this harness' queries (mixed signed/unsigned 64-bit bounds,
+		// arrays): ask cvc5 first from now on
+		first, second = p.cvc, p.z3
+	}
+	r := first.Check(q)
 	if conclusive(r) {
 		if r == "sat" {
-			p.lastSat = p.z3
+			p.lastSat = first
 		}
 		if p.cross {
-			r2 := p.cvc.Check(q)
+			r2 := second.Check(q)
 			if conclusive(r2) && r2 != r {
 				p.Disagree++
-				return "(error \"solver disagreement z3=" + r + " cvc5=" + r2 + "\")"
+				return "(error \"solver disagreement " + first.name + "=" + r + " " + second.name + "=" + r2 + "\")"
 			}
 		}
 		return r
 	}
+	if first == p.z3 {
+		p.z3Timeouts++
+	}
 	p.Fallback++
-	r2 := p.cvc.Check(q)
+	r2 := second.Check(q)
 	if r2 == "sat" {
-		p.lastSat = p.cvc
+		p.lastSat = second
 	}
 	return r2
 }
